@@ -1112,8 +1112,10 @@ pub fn miri_main(cfg: &Cfg) {
       s.threads[0].push(TOp::Unsub(0));
     }
     let o = run_scen_free(&s);
-    let v = universal(&o).or_else(|| match s.kind {
-      Kind::Subject => common_order(&o),
+    let v = universal(&o).or_else(|| match (cfg.prop.as_str(), &s.kind) {
+      // the full C10 oracle (common order, merge_all oracle, linearizability, share) also under Miri's scheduler
+      ("C10", _) => super::c10::oracle(&o, &s),
+      (_, Kind::Subject) => common_order(&o),
       _ => None,
     });
     results.push(json!({"scenario": s.name, "events": o.evs.len(), "violation": v.map(|(k, d)| json!({"kind": k, "detail": d}))}));
